@@ -142,11 +142,11 @@ def live_operand(a, is_utpm, layout='C'):
     if is_utpm:
         if layout == 'T' and a.ndim >= 3:
             ax = (0, 1) + tuple(range(2, a.ndim))[::-1]
-            X = UTPM(np.ascontiguousarray(a.transpose(ax)))
+            X = UTPM(np.array(a.transpose(ax), order="C", copy=True))      # a real copy: ascontiguousarray would alias the descriptor for size-1 axes
             return X.T
         return UTPM(a.copy())
     if layout == 'T' and a.ndim >= 1:
-        return np.ascontiguousarray(a.T).T
+        return np.array(a.T, order="C", copy=True).T
     return a.copy()
 
 
